@@ -4,7 +4,7 @@ import ast
 from . import pyx
 from .core import AnalysisError, src, dotted
 from . import logic
-from .pysym import SymExec, show, subterms, is_method_call, path_values, alternatives
+from .pysym import SymExec, show, subterms, is_method_call, path_values, alternatives, all_calls
 
 REL = pyx.REL
 MUTATORS = {'append', 'extend', 'insert', 'pop', 'remove', 'clear', 'sort', 'reverse', 'update',
@@ -718,35 +718,40 @@ def r_config_plumbing(repo, rep, R):
     pm = repo.module('depccg/parsing.py')
     prun = pm.get('run')
     pparams = {a.arg for a in prun.args.args}
-    kwd = None
-    for n in ast.walk(prun):
-        if isinstance(n, ast.Assign) and isinstance(n.value, ast.Dict) and any(
-                isinstance(t, ast.Name) and t.id == 'kwargs' for t in n.targets):
-            kwd = n.value
-    if kwd is None:
-        raise AnalysisError('depccg/parsing.py: kwargs literal not found in run()')
-    d = {}
-    for k, v in zip(kwd.keys, kwd.values):
-        if isinstance(k, ast.Constant):
-            d[k.value] = v
-    w2 = 'depccg/parsing.py:%s run' % kwd.lineno
+    TARGET = A(A(N('depccg'), '_parsing'), 'run')
+    direct, pooled = [], []
+    for st, out in SymExec(prun, unroll=1).run():
+        for c_ in all_calls(st):
+            if c_[1] == TARGET and c_ not in direct:
+                direct.append(c_)
+            if c_[1][0] == 'attr' and c_[1][2] == 'apply_async' and c_[2] and c_[2][0] == TARGET and c_ not in pooled:
+                pooled.append(c_)
+    w2 = 'depccg/parsing.py:%s run' % prun.lineno
+    rep.check(bool(direct) and bool(pooled), R, w2, 'parsing.run:sites', 'both the in-process and the pooled path call depccg._parsing.run',
+              'found %d in-process and %d pooled uses of depccg._parsing.run' % (len(direct), len(pooled)))
+    # the option dictionary: the ** argument of the in-process call
+    dicts = []
+    for c_ in direct:
+        stars = [v for k, v in c_[3] if k is None]
+        rep.check(len(stars) == 1 and stars[0][0] == 'dict', R, w2, 'parsing.run:direct:kwargs', 'the in-process call passes the option dictionary as **kwargs',
+                  'the in-process call does not pass one literal option dictionary with ** (%s)' % [show(v)[:40] for v in stars])
+        dicts += [v for v in stars if v[0] == 'dict']
+    for c_ in pooled:
+        kwds = dict(c_[3]).get('kwds')
+        inner = [v for k, v in kwds[1] if k is None] if kwds is not None and kwds[0] == 'dict' else []
+        rep.check(bool(dicts) and inner == [dicts[0]], R, w2, 'parsing.run:pooled:kwargs', 'workers get the same option dictionary',
+                  'the pooled path passes %s as options' % (show(kwds)[:80] if kwds else None))
+    if not dicts:
+        raise AnalysisError('depccg/parsing.py: no option dictionary reaches depccg._parsing.run')
+    d = {k[1]: v for k, v in dicts[0][1] if k is not None and k[0] == 'const'}
     for f in want[1:] + ['max_length']:
         v = d.get(f)
-        ok = v is not None and isinstance(v, ast.Name) and v.id == f and f in pparams
+        ok = v is not None and v == N(f) and f in pparams
         rep.check(ok, R, w2, 'parsing.run:kwargs:' + f, 'option %r is bound to the like-named parameter of depccg.parsing.run' % f,
-                  'option %r is bound to %s' % (f, src(v) if v is not None else 'nothing'))
+                  'option %r is bound to %s' % (f, show(v) if v is not None else 'nothing'))
     v = d.get('num_tags')
-    rep.check(v is not None and 'shape[1]' in src(v), R, w2, 'parsing.run:kwargs:num_tags',
-              'num_tags is the width of the tag-score matrix', 'num_tags is %s' % (src(v) if v is not None else 'missing'))
-    # both call sites pass **kwargs
-    calls = [n for n in ast.walk(prun) if isinstance(n, ast.Call) and src(n.func) == 'depccg._parsing.run']
-    refs = [n for n in ast.walk(prun) if isinstance(n, ast.Attribute) and src(n) == 'depccg._parsing.run']
-    rep.check(len(refs) >= 2, R, w2, 'parsing.run:sites', 'both the in-process and the pooled path call depccg._parsing.run',
-              'found %d references to depccg._parsing.run' % len(refs))
-    for c in calls:
-        ok = any(kw.arg is None and src(kw.value) == 'kwargs' for kw in c.keywords)
-        rep.check(ok, R, 'depccg/parsing.py:%s run' % c.lineno, 'parsing.run:direct:kwargs', 'the in-process call passes **kwargs',
-                  'the in-process call does not pass **kwargs')
+    rep.check(v is not None and v[0] == 'sub' and v[2] == C(1) and v[1][0] == 'attr' and v[1][2] == 'shape', R, w2, 'parsing.run:kwargs:num_tags',
+              'num_tags is the width of the tag-score matrix', 'num_tags is %s' % (show(v) if v is not None else 'missing'))
     # __main__: CLI flags -> parameters
     mm = repo.module('depccg/__main__.py')
     main = mm.get('main')
